@@ -105,6 +105,7 @@ func (s *PacketServer) Serve(conn net.PacketConn) error {
 
 	s.listeners[conn]++
 	s.mu.Unlock()
+	verifPoint("serve.registered")
 
 	type requestKey struct {
 		IP         string
@@ -144,6 +145,7 @@ func (s *PacketServer) Serve(conn net.PacketConn) error {
 
 		s.activeAdd()
 		go func(buff []byte, remoteAddr net.Addr) {
+			defer verifPoint("dgram.done")
 			defer s.activeDone()
 
 			secret, err := s.SecretSource.RADIUSSecret(s.ctx, remoteAddr)
@@ -249,6 +251,7 @@ func (s *PacketServer) Shutdown(ctx context.Context) error {
 		s.activeDone()
 	}
 	s.mu.Unlock()
+	verifPoint("shutdown.beforeWait")
 
 	select {
 	case <-s.lastActive:
